@@ -232,6 +232,12 @@ class Poly:
             r = r * self
         return r
 
+    def __getitem__(self, i):
+        """an expression over opaque arrays is an array: indexing it gives an opaque element / view"""
+        if any(a[0] == 'S' for a in self.atoms()):
+            return Poly.atom(('S', Sym('getitem', _sym_arg(self), _freeze(i))))
+        raise Top(f"index {i!r} applied to the scalar expression {self}")
+
     def __eq__(self, o):
         if isinstance(o, (int, float, Fraction)) and not isinstance(o, bool):
             return self.is_const() and self.cval() == o
